@@ -435,7 +435,7 @@ pub fn run(args: &Args) -> Report {
     let mut cases = Vec::new();
     for sc in scenarios(thorough) {
         let label = format!("{} | retries={} rngA={:?} rngB={:?} rwnd={:?} requests={}", sc.name, sc.retries, sc.rng[0], sc.rng[1], sc.rwnd, sc.reqs.len());
-        cases.push(Case { label, exec: Box::new(move |r| exec_two(&sc, r)) });
+        cases.push(Case { try_unbounded: false, max_k: u32::MAX, label, exec: Box::new(move |r| exec_two(&sc, r)) });
     }
     for retries in 1..=3usize {
         for reject in 0..=3usize {
@@ -446,7 +446,7 @@ pub fn run(args: &Args) -> Report {
                     if !then_accept && reject < retries {
                         continue; // request legitimately pending forever
                     }
-                    cases.push(Case { label, exec: Box::new(move |r| exec_raw(retries, reject, then_accept, &sc2, r)) });
+                    cases.push(Case { try_unbounded: false, max_k: u32::MAX, label, exec: Box::new(move |r| exec_raw(retries, reject, then_accept, &sc2, r)) });
                 }
             }
         }
